@@ -16,7 +16,7 @@ CHECKS = {
         note='Over-approximates feasibility (a fallible call may be unable to fail at that point): hence the reviewed inventory. '
              'Not decided: that a compensation restores the exact prior state; failures inside storage after partial work. '
              'Nested statements of trigger bodies count as separate statements.',
-        design='§4 C11'),
+        design='§4 C11 (plan) and §10.3 (as built)'),
     'C13': dict(
         technique='state-coverage analysis (T11): Database fields written by statement execution vs fields captured by BEGIN and restored by ROLLBACK, from MIR field borrows over the call graph',
         text='Decides snapshot completeness for all histories: the set of Database fields that any function reachable from the '
@@ -25,7 +25,7 @@ CHECKS = {
              'executors must reach the storage calls. Field privacy makes the writer set closed-world.',
         note='Not decided: that derived Clone is deep; session state (role, security flag, session variables, sql_mode) is '
              'declared non-transactional with reasons.',
-        design='§4 C13'),
+        design='§4 C13 (plan) and §10.3 (as built)'),
     'C14': dict(
         technique='MIR path analysis: must-follow (record_change after every DML row mutation) with inter-procedural summaries; match-arm table of undo_change',
         text='Decides, for all histories at once, the structural necessary conditions of savepoint rollback: every row mutation '
@@ -35,7 +35,7 @@ CHECKS = {
              'statement sequence, which tests only sample.',
         note='Not decided: that recorded row images are the right values, position-preserving undo, index effects (C15). '
              'Loop model: a for-loop entered after a mutation iterates at least once.',
-        design='§4 C14'),
+        design='§4 C14 (plan) and §10.3 (as built)'),
     'C15': dict(
         technique='MIR path analysis over the mutation-site matrix: must-follow (index maintenance after every row mutation), no-error-exit-between, field-borrow typestate inside impl Table',
         text='Decides that every mutation of a table\'s row vector is followed on all successful paths by the maintenance call '
@@ -45,7 +45,7 @@ CHECKS = {
              'closed when it grows.',
         note='Not decided: that maintenance computes correct keys/positions (value-level); disk I/O errors inside index code. '
              'Assumes catalog knows every stored table inside vibesql-storage (C33 clause).',
-        design='§4 C15'),
+        design='§4 C15 (plan) and §10.3 (as built)'),
 }
 
 CHECKS['C26'] = dict(
@@ -57,7 +57,7 @@ CHECKS['C26'] = dict(
          'path the direct test missed.',
     note='Not decided: has_privilege lookup, column-level privileges; table-name agreement between check and read is not tracked '
          'across calls; reads of the statement\'s own target under its DML privilege count as authorised.',
-    design='§4 C26')
+    design='§4 C26 (plan) and §10.3 (as built)')
 CHECKS['C34'] = dict(
     technique='must-precede/must-follow bracketing of mutation sites by trigger firing; argument-shape and literal tables (event, OLD/NEW, timing, granularity); writer/reader format agreement',
     text='Decides that every row-mutation site reachable from the DML executors is bracketed by before/after row-trigger firing with the '
@@ -65,7 +65,7 @@ CHECKS['C34'] = dict(
          'triggers fire exactly once per executor outside loops; that the four firing entry points select the right timing and '
          'granularity behind the recursion guard; and that the stored trigger text is not Debug-formatted.',
     note='Not decided: WHEN evaluation, OLD/NEW value resolution, triggers of child tables touched by referential actions.',
-    design='§4 C34')
+    design='§4 C34 (plan) and §10.3 (as built)')
 
 CHECKS['C10'] = dict(
     technique='must-pass-through (no shortcut) analysis of uniqueness validators; inter-procedural must-precede of row validation before insert/update mutation sites',
@@ -74,21 +74,21 @@ CHECKS['C10'] = dict(
          'on every path by the row validators of its statement. Path properties: they hold for every statement history.',
     note='Not decided: correctness of the hash indexes themselves (C15), CHECK expression semantics, value-level flags that switch '
          'validators on (bulk transfer: presence of the calls is checked instead).',
-    design='§4 C10')
+    design='§4 C10 (plan) and §10.3 (as built)')
 CHECKS['C12'] = dict(
     technique='inter-procedural must-precede of FK child-side / parent-side checks before mutation sites (with the foreign_keys.is_empty idiom); per-variant arm table of the ReferentialAction dispatch',
     text='Decides that insert/update sites are preceded by the child-side foreign-key validation wherever the schema has foreign keys, that '
          'row deletion/truncation sites are preceded by the parent-side check, and that the ReferentialAction match is exhaustive, its '
          'NO ACTION/RESTRICT arms reject and its CASCADE/SET NULL/SET DEFAULT arms call the action of the same name.',
     note='Not decided: key comparison semantics, cascade order, whether a SET DEFAULT value has a parent.',
-    design='§4 C12')
+    design='§4 C12 (plan) and §10.3 (as built)')
 CHECKS['C33'] = dict(
     technique='must-follow (catalog re-registration after Table::schema_mut), must-pass-through lists for DROP/CREATE paths, no-error-exit after the first of two registration steps',
     text='Decides dual-schema coherence: every executor function that changes a stored table schema re-registers it in the catalog on every '
          'successful path; DROP TABLE / DROP INDEX / CREATE TABLE pass through both the catalog and the storage side; CREATE INDEX performs '
          'both registration steps and is examined for error exits between them.',
     note='Not decided: identifier case handling (runtime strings); I/O failures of disk-backed index creation.',
-    design='§4 C33')
+    design='§4 C33 (plan) and §10.3 (as built)')
 
 CHECKS['C21'] = dict(
     technique='key-agreement analysis (T10): per-variant key class of eq / partial_cmp / cmp / hash read from MIR match arms, fixed compatibility relation; field-set agreement for the temporal structs',
@@ -98,7 +98,7 @@ CHECKS['C21'] = dict(
          'and whether the temporal structs compare/hash the same field sets field-wise.',
     note='Assumes std primitive impls (integer/bool/String Eq, Ord, Hash) are mutually consistent. One genuine defect was repaired '
          '(fix: -0.0 hashing), one is test-pinned and listed (Interval).',
-    design='§4 C21')
+    design='§4 C21 (plan) and §10.3 (as built)')
 
 CHECKS['C16'] = dict(
     technique='sibling-arm agreement (T8): operation class of the InMemory vs DiskBacked arm of every match on IndexData, from the BTreeMap / BTreeIndex calls each arm makes',
@@ -107,7 +107,7 @@ CHECKS['C16'] = dict(
          'necessary condition for backend independence that holds for all workloads; it found the delete(key) vs remove-one divergence, '
          'now repaired.',
     note='Not decided: the B+tree\'s own behaviour (C17), spill thresholds, swallowed I/O errors in the disk arm.',
-    design='§4 C16')
+    design='§4 C16 (plan) and §10.3 (as built)')
 
 CHECKS['C18'] = dict(
     technique='writer/reader table agreement (T8): tag bijection, per-variant primitive sequences, abstract evaluation of the reader\'s string decision list on every text the writer can emit, field-consumption of persisted structs',
@@ -117,7 +117,7 @@ CHECKS['C18'] = dict(
          'equality/starts_with tests to the same variant, and the writer consumes every field; the catalog writers read every field of the '
          'persisted index definition and the readers do not substitute constants; section order of save mirrors load.',
     note='Not decided: equality of values after Display/FromStr (C22), query results after reload, constraints (not in the property text).',
-    design='§4 C18')
+    design='§4 C18 (plan) and §10.3 (as built)')
 
 CHECKS['C19'] = dict(
     technique='alphabet / literal-form agreement (T8) between the dump writer, the statement splitter (mode-flag and per-character switch structure read from MIR), the parser\'s literal arms and the INSERT VALUES evaluator',
@@ -126,7 +126,7 @@ CHECKS['C19'] = dict(
          'and line handling are not applied inside string literals; that every literal head keyword the writer emits has a parser arm; and '
          'that the signed numeric form is accepted by the INSERT VALUES evaluator. These are alphabet-level facts, so they cover all values.',
     note='Not decided: that INSERT coercion reproduces the exact value (special floats, precision).',
-    design='§4 C19')
+    design='§4 C19 (plan) and §10.3 (as built)')
 
 CHECKS['C06'] = dict(
     technique='visitor-completeness analysis (T9) of the WHERE-pushdown table-reference walker against the Expression ADT; per-variant truthiness-table agreement (T8) of all SELECT-side keep/drop functions',
@@ -134,14 +134,14 @@ CHECKS['C06'] = dict(
          'which table a conjunct may be pushed to (children are read from the ADT, so new variants are covered), and that all SELECT-side '
          'functions turning a predicate value into keep/drop share one per-variant table (bool / non-zero / false / error).',
     note='Not decided: Kleene semantics of AND/OR/NOT on every value, LIKE/BETWEEN semantics.',
-    design='§4 C06')
+    design='§4 C06 (plan) and §10.3 (as built)')
 CHECKS['C09'] = dict(
     technique='per-variant truthiness-table agreement (T8) between SELECT\'s filter and the DML row selectors; error-arm analysis; coercion-before-index-probe check on the PK fast paths',
     text='Decides that DELETE and UPDATE classify the evaluated WHERE value per SqlValue variant exactly as SELECT does and do not swallow '
          'evaluation errors, and that their primary-key fast paths coerce the literal before probing the hash index. Finite table '
          'comparison, hence valid for all predicates and data.',
     note='Not decided: SET expression evaluation on pre-update values, INSERT coercion (value-level).',
-    design='§4 C09')
+    design='§4 C09 (plan) and §10.3 (as built)')
 
 CHECKS['C28'] = dict(
     technique='linear length accounting (T13): abstract interpretation of each encoder arm in the domain of linear forms over symbolic field lengths, path-wise with one symbolic loop iteration and consistent Option cases; protocol layout table (T8)',
@@ -151,7 +151,7 @@ CHECKS['C28'] = dict(
          'fails closed.',
     note='Not decided: re-parsing by an independent protocol parser; narrowing casts of counts (usize as i16/i32) are reported in the '
          'evidence, not alarmed. Assumes per-element additivity for mixed NULL/non-NULL rows.',
-    design='§4 C28')
+    design='§4 C28 (plan) and §10.3 (as built)')
 
 CHECKS['C29'] = dict(
     technique='dominance analysis of the authenticate coroutine (suspension points re-linked), return-value provenance of the verifiers, call-sequence table of the digest composition',
@@ -160,7 +160,7 @@ CHECKS['C29'] = dict(
          'return true through Argon2 verification resp. a full equality with compute_md5_password(stored, user, salt) and apply no partial '
          'matcher to the client response (strip_prefix("md5") is test-pinned); and that the MD5 digest is composed in protocol order.',
     note='Not decided: Argon2/MD5 correctness (trusted crates), constant-time comparison, password file parsing.',
-    design='§4 C29')
+    design='§4 C29 (plan) and §10.3 (as built)')
 
 CHECKS['C27'] = dict(
     technique='length-hygiene and byte-budget analysis of the wire decoders: range check before cast (taint-style), guaranteed-minimum-length vs consumed-bytes accounting over dominating checks, frame confinement (payload readers on split_to buffers), may-panic inventory',
@@ -169,7 +169,7 @@ CHECKS['C27'] = dict(
          '(including `buf.len() < K + len` with a lower-bounded len) minus the bytes already consumed; payload readers only see a buffer split '
          'off with the frame length; remaining panic-capable constructs are inventoried. Four concrete defects were found this way and repaired.',
     note='Not decided: decode(encode(m)) = m (value-level); tokio/bytes internals are trusted.',
-    design='§4 C27')
+    design='§4 C27 (plan) and §10.3 (as built)')
 
 CHECKS['C25'] = dict(
     technique='deny rule on lossy text operations reachable from the cache-key function; visitor-completeness analysis (T9) of the invalidation table extractor against the Expression/FromClause/SelectStmt ADTs; reachability of both caches from invalidate_table',
@@ -179,7 +179,7 @@ CHECKS['C25'] = dict(
          'foreign or stale entry, for all query texts and write interleavings.',
     note='Not decided: that callers invalidate on every write (the cache is not wired into the executors in this tree), views (need the '
          'catalog), 64-bit hash collisions.',
-    design='§4 C25')
+    design='§4 C25 (plan) and §10.3 (as built)')
 
 CHECKS['C02'] = dict(
     technique='symbolic key-expression agreement (T10) over the index maintenance closures; must-precede (T2) of the normaliser before every index probe; field-awareness rule on index choosers; dominance rule for order restoration',
@@ -190,7 +190,7 @@ CHECKS['C02'] = dict(
          'independence for all data and queries.',
     note='Not decided: bound arithmetic (inclusive/exclusive, increments), NULL keys, cost model, 2^53 precision of the Double canonical form '
          '(harmless while the WHERE clause is re-applied by the executor).',
-    design='§4 C02')
+    design='§4 C02 (plan) and §10.3 (as built)')
 
 CHECKS['C04'] = dict(
     technique='typed deny/allow inventory of rayon operations (T12); fork analysis of sequential/parallel sort arms with closure MIR fingerprints (sibling agreement); truthiness-table agreement of parallel filters with their sequential siblings (T8)',
@@ -199,7 +199,7 @@ CHECKS['C04'] = dict(
          'the threshold test over the same collection with an identical comparator, and that parallel predicate filters classify predicate '
          'values like their sequential siblings. Necessary conditions of threshold independence for all data and thread schedules.',
     note='Not decided: correctness of chunk merging in the parallel hash-join build, float associativity in SIMD kernels, the cfg(not(parallel)) arms.',
-    design='§4 C04')
+    design='§4 C04 (plan) and §10.3 (as built)')
 
 CHECKS['C30'] = dict(
     technique='symbolic key/value agreement of the statement cache (T10); state-machine shape rule for the placeholder scanners (quote flag dominates the ? action); exhaustive match tables (T8); dominance rule for the bool-before-int conversion order',
@@ -208,7 +208,7 @@ CHECKS['C30'] = dict(
          'doubles quotes inside string parameters, and that Python bool is recognised before int. Necessary conditions of faithful binding for '
          'all SQL texts, parameter tuples and call sequences.',
     note='Not decided: pyo3 extraction semantics, NaN/inf rendering, equality of values read back.',
-    design='§4 C30')
+    design='§4 C30 (plan) and §10.3 (as built)')
 
 CHECKS['C31'] = dict(
     technique='dominance of the validators over the importers; loop-shape rule for the JSON key validator; per-arm literal rendering table over serde_json::Value (T8) with quote-doubling/quoting sinks (T7); writer/reader alphabet agreement for CSV; Debug-format and constant-header detection on the export producer',
@@ -217,7 +217,7 @@ CHECKS['C31'] = dict(
          'statement is the fixed INSERT template, that the CSV reader understands exactly the quoting the CSV writer produces, and whether the '
          'exported cells are value text. Necessary conditions of safe import and of the export/import round trip for all files.',
     note='Not decided: value equality after INSERT coercion (CSV fields are always text literals), file-system errors.',
-    design='§4 C31')
+    design='§4 C31 (plan) and §10.3 (as built)')
 
 CHECKS['C23'] = dict(
     technique='whole-call-graph may-panic inventory over MIR (assert terminators, panicking library calls, explicit panics) with dominance-based discharge rules and a reviewed table (T5); strongly-connected-component analysis of the call graph with depth-guard detection (T6); per-function control-flow cycle analysis for input consumption (loop progress)',
@@ -225,14 +225,14 @@ CHECKS['C23'] = dict(
          'or individually reviewed, that every recursive cycle enforces a nesting limit (today: it does not - two known findings), and that '
          'every loop consumes input on each cycle. These hold for all input strings because the inventory is complete for the compiled code.',
     note='Not decided: time bounds beyond progress; recursion when the produced tree is dropped; allocation size (tokens are proportional to input).',
-    design='§4 C23')
+    design='§4 C23 (plan) and §10.3 (as built)')
 
 CHECKS['C22'] = dict(
     technique='may-panic inventory over MIR of everything reachable from the temporal FromStr implementations, with dominance-based discharge rules (guarded index, find()-position slice bounds, is_ascii-guarded byte offsets) and a reviewed table (T5); Display/FromStr separator and field-count agreement (T8)',
     text='Decides the totality clause: no construct reachable from Date/Time/Timestamp/Interval parsing can panic or overflow for any input '
          'text (each is guarded, saturating, or individually reviewed), and the text shape Display writes is the shape FromStr accepts.',
     note='Not decided: equality of the value after format-then-parse (runtime-value property; e.g. negative years).',
-    design='§4 C22')
+    design='§4 C22 (plan) and §10.3 (as built)')
 
 CHECKS['C20'] = dict(
     technique='may-panic and allocation inventory over MIR of the persistence functions reachable from the loaders (T5); taint rule on allocation sizes and loop bounds decoded from the file (T7) with per-loop read-on-every-iteration analysis; recursion components vs depth guards (T6)',
@@ -240,14 +240,14 @@ CHECKS['C20'] = dict(
          'loop bounded by a number read from the file either reads (and so stops at end of file) on each iteration or validates the number, '
          'and that the recursive expression reader is depth-limited. These hold for every byte content of the file.',
     note='Not decided: serde_json / zstd internals; zstd::decode_all output size (reported in the evidence); the SQL-dump loader executes statements (C23/C24).',
-    design='§4 C20')
+    design='§4 C20 (plan) and §10.3 (as built)')
 
 CHECKS['C24'] = dict(
     technique='inventory of MIR overflow / division asserts on non-usize integer operands in the arithmetic operators, aggregates, window, columnar, vectorised, SIMD and procedural modules, filtered by call-graph reachability from the statement executors, with dominance-based discharge and a reviewed table (T12/T5 restricted)',
     text='Decides the no-silent-wrap clause: every integer + - * / % and negation on SQL values in those modules is checked or guarded; an '
          'unchecked operation is exactly an Overflow assert in MIR, so the inventory is complete for the compiled code and holds for all values.',
     note='Not decided: panic-freedom of the whole executor (stated in DESIGN), floating-point rounding, calendar arithmetic beyond year 5.8 million (reviewed, listed in the evidence).',
-    design='§4 C24')
+    design='§4 C24 (plan) and §10.3 (as built)')
 
 NOT_APPLICABLE = {
     'C01': 'Equality of result multisets with a reference engine is a value-level semantic equivalence over all queries and data; no structural necessary condition beyond those claimed under C06/C21/C24 exists and a static rule cannot stand in for an oracle.',
